@@ -53,6 +53,17 @@ def layout_oracle(run, corr, deep):
             if found >= 2:
                 break
     corr.distribution["oracle: encoder outputs compared with the literal layout"] = n
+    # ... and the datagram that leaves through DATAInterface.send_msg() is exactly these octets (nothing added on the way)
+    sub = [(k, m, l) for k, m, l in msgs if c01.in_quantifier(k, m)][:: 5]
+    sa = vf.run_lines(T.HARNESS, ["trxd.%s.send %d %s" % (k, l, m.line()) for k, m, l in sub])
+    for (k, m, l), a in zip(sub, sa):
+        want = T.layout_tx(m, l) if k == "tx" else T.layout_rx(m, l)
+        t = a.split()
+        if not (len(t) == 3 and t[0] == "ok" and t[1] == "1" and T.dec_octets(t[2]) == bytes(want)):
+            found += run.report_witness({"kind": "trxd-layout-sent", "class": k, "legacy": l, "message": m.line(),
+                                         "impl": a[:400], "layout_demands": "1 datagram: " + bytes(want).hex()[:400]})
+            break
+    corr.distribution["oracle: sent datagrams compared with the literal layout"] = len(sub)
     return found
 
 
@@ -80,11 +91,13 @@ def cross_oracle(run, corr, deep):
         msgs.append((base.copy(fn=v), 0))
     for v in range(-1, 10):
         msgs.append((base.copy(tn=v), 0))
-    enc = vf.run_lines(T.HARNESS, ["trxd.rx.gen %d %s" % (l, m.line()) for m, l in msgs])
+    # what the toolkit SENDS: the datagram DATAInterface.send_msg() hands to its socket (through the real UDPLink.send)
+    enc = vf.run_lines(T.HARNESS, ["trxd.rx.send %d %s" % (l, m.line()) for m, l in msgs])
     reqs, keep = [], []
     for (m, l), a in zip(msgs, enc):
-        if a.startswith("ok "):
-            reqs.append("tc.rxd %s 0" % T.dec_octets(a[3:]).hex())
+        t = a.split()
+        if len(t) == 3 and t[0] == "ok" and t[1] == "1":
+            reqs.append("tc.rxd %s 0" % T.dec_octets(t[2]).hex())
             keep.append((m, l))
     out = vf.run_lines([exe], reqs)
     for (m, l), r, a in zip(keep, reqs, out):
@@ -183,10 +196,16 @@ def replay(run, path):
             why = c01.judge_reused(k, mm, a)
             print("replay: %s parsed after %s -> %s : %s" % (w["line"][:120], w["first_line"][:80], a[:160], why or "property holds"))
             bad += why is not None
+        elif kind == "trxd-layout-sent":
+            a = vf.run_lines(T.HARNESS, ["trxd.%s.send %d %s" % (w["class"], w["legacy"], w["message"])])[0]
+            print("replay: send_msg(%s) -> %s\n  layout demands %s" % (w["message"][:160], a[:300], w["layout_demands"][:300]))
+            t = a.split()
+            bad += not (len(t) == 3 and t[1] == "1" and "1 datagram: " + T.dec_octets(t[2]).hex()[:400] == w["layout_demands"])
         elif kind == "cross-py-to-trxcon":
             exe = trxcon_part.build(run)
-            enc = vf.run_lines(T.HARNESS, ["trxd.rx.gen %d %s" % (w["legacy"], w["message"])])[0]
-            a = vf.run_lines([exe], ["tc.rxd %s 0" % T.dec_octets(enc[3:]).hex()])[0] if enc.startswith("ok ") else enc
+            enc = vf.run_lines(T.HARNESS, ["trxd.rx.send %d %s" % (w["legacy"], w["message"])])[0]
+            et = enc.split()
+            a = vf.run_lines([exe], ["tc.rxd %s 0" % T.dec_octets(et[2]).hex()])[0] if (len(et) == 3 and et[1] == "1") else enc
             print("replay: toolkit message %s\n  trxcon: %s\n  expected: %s" % (w["message"][:200], a[:300], w["expected"]))
             bad += a[:300] != w["expected"]
         elif kind == "cross-trxcon-to-py":
